@@ -6,6 +6,7 @@ package main
 
 import (
 	"fmt"
+	"go/constant"
 	"go/token"
 	"go/types"
 	"strings"
@@ -553,6 +554,32 @@ func rulePAN12(p *Program) *RuleResult {
 							"an element whose sub-element is absent (nil) crashes the evaluation; the generated getters are nil-safe, direct field access is not")
 					}
 				}
+				// (c) protoreflect lookups that yield nil for an absent name / number / unset oneof, used as a receiver
+				if lk, ok := ins.(*ssa.Call); ok && lk.Common().IsInvoke() && lk.Referrers() != nil {
+					switch lk.Common().Method.Name() {
+					case "ByName", "ByNumber", "ByJSONName", "ByTextName", "WhichOneof":
+						if strings.Contains(typeShort(lk.Common().Value.Type()), "protoreflect.") {
+							n := 0
+							for _, ref := range *lk.Referrers() {
+								use, ok := ref.(*ssa.Call)
+								if !ok || !use.Common().IsInvoke() || use.Common().Value != ssa.Value(lk) {
+									continue
+								}
+								n++
+								r.count("descriptor_lookup_uses", 1)
+								key := fmt.Sprintf("%s|%s.%s(…).%s", short(fn), typeShort(lk.Common().Value.Type()), lk.Common().Method.Name(), use.Common().Method.Name())
+								if nilGuarded(fn, lk, use) {
+									r.ok(key, "result of a descriptor lookup used after a nil test", p.instrPos(use), "dominating nil test of the lookup result", true)
+								} else if g := guardedByPredicate(fn, lk, use); g != "" {
+									r.ok(key, "result of a descriptor lookup used under a predicate that fails when the lookup is nil", p.instrPos(use), g, true)
+								} else {
+									r.bad(key, fmt.Sprintf("%s is called on the result of %s.%s without a nil test", use.Common().Method.Name(), typeShort(lk.Common().Value.Type()), lk.Common().Method.Name()), p.instrPos(use),
+										"the lookup yields nil for an undeclared enum number / absent field name / unset oneof: a method call on the nil descriptor crashes")
+								}
+							}
+						}
+					}
+				}
 				// (b) results of in-repo functions that may return nil, used as a receiver
 				call, ok := ins.(*ssa.Call)
 				if !ok {
@@ -681,4 +708,243 @@ func useDescr(ins ssa.Instruction) string {
 		return "." + fieldName(y)
 	}
 	return "deref"
+}
+
+// guardedByPredicate: the use is dominated by the true edge of a call to an
+// in-repo Boolean predicate that performs the same lookup (same method, same
+// constant key) and — evaluated with that lookup pinned to nil — returns false
+// on every path.
+func guardedByPredicate(fn *ssa.Function, lk *ssa.Call, use ssa.Instruction) string {
+	keyOf := func(c *ssa.Call) string {
+		if len(c.Common().Args) != 1 {
+			return ""
+		}
+		a := c.Common().Args[0]
+		for i := 0; i < 3; i++ {
+			switch x := a.(type) {
+			case *ssa.Convert:
+				a = x.X
+			case *ssa.ChangeType:
+				a = x.X
+			}
+		}
+		if k, ok := a.(*ssa.Const); ok && k.Value != nil {
+			return c.Common().Method.Name() + "(" + k.Value.ExactString() + ")"
+		}
+		return ""
+	}
+	want := keyOf(lk)
+	if want == "" {
+		return ""
+	}
+	for _, b := range fn.Blocks {
+		ifi, ok := b.Instrs[len(b.Instrs)-1].(*ssa.If)
+		if !ok {
+			continue
+		}
+		pc, ok := ifi.Cond.(*ssa.Call)
+		if !ok || pc.Common().StaticCallee() == nil || !inRepoFn(pc.Common().StaticCallee()) || !edgeDominates(b, 0, use.Block()) {
+			continue
+		}
+		g := pc.Common().StaticCallee()
+		var same []*ssa.Call
+		for _, gb := range g.Blocks {
+			for _, gi := range gb.Instrs {
+				if c, ok := gi.(*ssa.Call); ok && c.Common().IsInvoke() && keyOf(c) == want {
+					same = append(same, c)
+				}
+			}
+		}
+		if len(same) == 0 {
+			continue
+		}
+		an := newAnalyzer()
+		an.maxBlocks = 200
+		for _, c := range same {
+			an.pin[c] = aval{k: kNil}
+		}
+		res := an.analyze(g, nil)
+		allFalse := len(res.rets) > 0
+		for _, ri := range res.rets {
+			if v := ri.vals[0]; v.k != kConst || v.c.Kind() != constant.Bool || constant.BoolVal(v.c) {
+				allFalse = false
+			}
+		}
+		if allFalse {
+			return "dominated by the true edge of " + short(g) + ", which performs the lookup " + want + " itself and returns false whenever it is nil (SCCP with the lookup pinned to nil)"
+		}
+	}
+	return ""
+}
+
+// ---------- PAN13: no nil item enters a collection ----------
+
+// mayBeNilValue: v can be a nil interface/pointer: a nil constant, the result
+// of an in-repo function (or closure) some return of which is nil without an
+// accompanying error, or a phi over such values.
+func mayBeNilValue(v ssa.Value, depth int, seen map[ssa.Value]bool) (bool, string) {
+	if depth > 12 || seen[v] {
+		return false, ""
+	}
+	seen[v] = true
+	switch x := v.(type) {
+	case *ssa.Const:
+		if x.IsNil() {
+			return true, "nil constant"
+		}
+	case *ssa.ChangeInterface:
+		return mayBeNilValue(x.X, depth+1, seen)
+	case *ssa.Phi:
+		for _, e := range x.Edges {
+			if m, why := mayBeNilValue(e, depth+1, seen); m {
+				return true, why
+			}
+		}
+	case *ssa.Extract:
+		if c, ok := x.Tuple.(*ssa.Call); ok {
+			return callMayReturnNil(c, x.Index, depth+1)
+		}
+	case *ssa.Call:
+		return callMayReturnNil(x, 0, depth+1)
+	}
+	return false, ""
+}
+
+func callMayReturnNil(c *ssa.Call, idx int, depth int) (bool, string) {
+	var callee *ssa.Function
+	if sc := c.Common().StaticCallee(); sc != nil {
+		callee = sc
+	} else {
+		// call of a local closure variable: every MakeClosure / function the value can be (phi over closures)
+		var fns []*ssa.Function
+		var collect func(v ssa.Value, d int)
+		collect = func(v ssa.Value, d int) {
+			if d > 4 {
+				return
+			}
+			switch y := v.(type) {
+			case *ssa.MakeClosure:
+				if f, ok := y.Fn.(*ssa.Function); ok {
+					fns = append(fns, f)
+				}
+			case *ssa.Function:
+				fns = append(fns, y)
+			case *ssa.Phi:
+				for _, e := range y.Edges {
+					collect(e, d+1)
+				}
+			case *ssa.UnOp:
+				if al, ok := y.X.(*ssa.Alloc); ok {
+					for _, ref := range *al.Referrers() {
+						if st, ok := ref.(*ssa.Store); ok && st.Addr == ssa.Value(al) {
+							collect(st.Val, d+1)
+						}
+					}
+				}
+			}
+		}
+		collect(c.Common().Value, 0)
+		for _, f := range fns {
+			if m, why := fnMayReturnNil(f, idx, depth); m {
+				return true, why
+			}
+		}
+		return false, ""
+	}
+	if !inRepoFn(callee) || len(callee.Blocks) == 0 {
+		return false, ""
+	}
+	return fnMayReturnNil(callee, idx, depth)
+}
+
+func fnMayReturnNil(fn *ssa.Function, idx int, depth int) (bool, string) {
+	if depth > 12 || idx >= fn.Signature.Results().Len() || !isNilable(fn.Signature.Results().At(idx).Type()) {
+		return false, ""
+	}
+	for _, b := range fn.Blocks {
+		ret, ok := b.Instrs[len(b.Instrs)-1].(*ssa.Return)
+		if !ok || idx >= len(ret.Results) {
+			continue
+		}
+		// a nil result next to a non-nil error is the error convention, not a value
+		if len(ret.Results) >= 2 {
+			last := ret.Results[len(ret.Results)-1]
+			if isErrorType(last.Type()) {
+				if lc, ok := last.(*ssa.Const); !ok || !lc.IsNil() {
+					continue
+				}
+			}
+		}
+		if m, why := mayBeNilValue(ret.Results[idx], depth+1, map[ssa.Value]bool{}); m {
+			if why == "nil constant" {
+				why = "nil returned by " + short(fn)
+			}
+			return true, why
+		}
+	}
+	return false, ""
+}
+
+func rulePAN13(p *Program) *RuleResult {
+	r := newResult("PAN13")
+	fns := apiRepoFuncs(p, r)
+	isCollection := func(t types.Type) bool {
+		return namedName(t) == "Collection" && strings.HasSuffix(namedPkgPath(t), "/fhirpath/system")
+	}
+	for _, fn := range fns {
+		for _, b := range fn.Blocks {
+			for _, ins := range b.Instrs {
+				st, ok := ins.(*ssa.Store)
+				if !ok {
+					continue
+				}
+				ia, ok := st.Addr.(*ssa.IndexAddr)
+				if !ok {
+					continue
+				}
+				al, ok := ia.X.(*ssa.Alloc)
+				if !ok {
+					continue
+				}
+				// the array becomes (part of) a Collection: sliced to Collection type or appended to one
+				toColl := false
+				for _, ref := range *al.Referrers() {
+					sl, ok := ref.(*ssa.Slice)
+					if !ok {
+						continue
+					}
+					if isCollection(sl.Type()) {
+						toColl = true
+					}
+					for _, r2 := range *sl.Referrers() {
+						if c, ok := r2.(*ssa.Call); ok {
+							if bi, ok := c.Common().Value.(*ssa.Builtin); ok && bi.Name() == "append" && isCollection(c.Common().Args[0].Type()) {
+								toColl = true
+							}
+						}
+					}
+				}
+				if !toColl {
+					continue
+				}
+				r.count("collection_items", 1)
+				may, why := mayBeNilValue(st.Val, 0, map[ssa.Value]bool{})
+				if !may {
+					continue
+				}
+				key := short(fn) + "|item " + valDescr(st.Val)
+				if nilGuarded(fn, st.Val, st) {
+					r.ok(key, "possibly-nil value placed into a collection after a nil test", p.instrPos(st), "dominating nil test", true)
+				} else {
+					r.bad(key, "a value that can be nil ("+why+") is placed into a collection without a nil test", p.instrPos(st),
+						"collections hold System values and FHIR messages only: a nil item crashes the consumers that rely on that invariant (equality, type operators, conversions)")
+				}
+			}
+		}
+	}
+	if len(r.Obs) == 0 {
+		r.ok("collections|no nil item", fmt.Sprintf("none of the %d values placed into collections by API-reachable code can be nil", r.Analysed["collection_items"]), "fhirpath", "may-be-nil analysis of the stored values (nil constants, nil-returning in-repo functions and closures, phis)", true)
+	}
+	r.floor("collection_items", 100)
+	return r
 }
